@@ -13,8 +13,17 @@ MC_Vals == {N1, N2, N3, SA, BT}
 MC_ValSeq == <<>>
 MC_Seps == {Nil, <<"s", ",">>}
 K(k) == [kind |-> k, j |-> 0]
-MC_SortKinds == {K("lt"), K("gt"), K("ltf"), K("lt0"), K("true"), K("false"), K("none"), K("alt"),
+MC_SortKinds == {K("lt"), K("ltnil"), K("gt"), K("ltf"), K("lt0"), K("true"), K("false"), K("none"), K("alt"),
                  [kind |-> "errat", j |-> 1], [kind |-> "errat", j |-> 3]}
+
+MC_NoXKeys == {}
+MC_Fills == {2}
+MC_XKeys == {<<"f", 1>>, <<"n", 0 - 1>>, <<"p", 40>>}
+MC_XVals == {<<"n", 7>>}
+MCX_Vals == {N1, SA}
+MCX_SortKinds == {K("lt"), K("ltnil")}
+Sim_XKeys == {<<"f", 1>>, <<"f", 0>>, <<"f", 0 - 2>>, <<"n", 0 - 1>>, <<"n", 0 - 3>>, <<"p", 40>>, <<"p", 33>>}
+Sim_XVals == {<<"n", 7>>, SA}
 
 (* histories only, the value set of the design, longer lists *)
 MC6_Vals == {N1, N2, N3, SA}
@@ -24,9 +33,10 @@ MC6_SortKinds == {}
 Gen_ValSeq == <<N3, N1, N2, SA, BT, SB>>
 Gen_Vals == {N1, N2, N3, SA, SB, BT}
 Gen_SortKinds == {K("lt"), K("gt"), K("true")}
+GenX_SortKinds == {K("ltnil")}
 
 (* random export *)
 Sim_Vals == {N1, N2, N3, <<"n", 4>>, <<"n", 5>>, SA, BT}
-Sim_SortKinds == {K("lt"), K("gt"), K("ltf"), K("lt0"), K("true"), K("false"), K("none"), K("alt"),
+Sim_SortKinds == {K("lt"), K("ltnil"), K("gt"), K("ltf"), K("lt0"), K("true"), K("false"), K("none"), K("alt"),
                   [kind |-> "errat", j |-> 1], [kind |-> "errat", j |-> 2], [kind |-> "errat", j |-> 4]}
 =============================================================================
